@@ -134,9 +134,12 @@ def wait_loop_decisions(ctx, repo, d, hd):
                             interp.exec(st0, env0)
                         except (PyRaise, Undecided, _Yielded):
                             pass
+                    from ..absint import _Return as _Ret
                     try:
                         interp.exec(loop, env0)
                         went_on = False
+                    except _Ret:
+                        went_on = False       # the loop lives in a helper and is left by `return`
                     except _Yielded:
                         went_on = True
                     except (PyRaise, Undecided) as ex:
@@ -455,7 +458,10 @@ def check(ctx):
             except RecursionError:
                 return ast.unparse(a)
         ok = len(dd) == 1 and [_canon(a, dd[0]) for a in dd[0].ast.value.args] == [f"{h}.spa_identifier", f"{h}.spa_name", fi.node.args.args[2].arg]
-        ctx.ob("R6", f"{fi.qual}::descriptor-fields", ok, f"{fi.qual}: descriptor is not built from (reply identifier, reply name, sender)", fi.loc)
+        if dd:
+            ctx.ob("R6", f"{fi.qual}::descriptor-fields", ok, f"{fi.qual}: descriptor is not built from (reply identifier, reply name, sender)", fi.loc)
+        else:
+            ctx.note(f"{fi.qual}: the descriptor is not built by a visible constructor call - that each listed spa carries the reply's identifier, name and sender is decided by the discovery model (R9: fields intact)")
         if ok:
             ctx.ob("R6", f"{fi.qual}::appends-that-descriptor", ast.unparse(dc.args[0]) == ast.unparse(dd[0].ast.targets[0]), "another object is listed", loc(fi, D.ast))
     dcls = repo.own_method("GeckoAsyncSpaDescriptor", "__init__")
@@ -476,8 +482,30 @@ def check(ctx):
     d = repo.own_method("GeckoAsyncLocator", "discover")
     gd = cfg_of(d)
     heads = [hd for hd in loop_heads(gd) if hd.kind == "test"]
-    ctx.ob("R4", f"{d.qual}::one-loop", len(heads) == 1, f"{d.qual}: expected one wait loop", d.loc)
-    if len(heads) == 1:
+    d_own = d
+    if not heads:
+        # the wait loop in a helper of discover() (awaited from it): the decision table is read there; that the start
+        # stamp and the fresh list precede it is then decided by the discovery model's runs (R9)
+        for n_ in walk_no_nested(d.node):
+            if isinstance(n_, ast.Await) and isinstance(n_.value, ast.Call) and isinstance(n_.value.func, ast.Attribute) \
+                    and isinstance(n_.value.func.value, ast.Name) and n_.value.func.value.id == "self":
+                h_ = repo.all_methods(d.cls).get(n_.value.func.attr)
+                if h_ is not None:
+                    hh_ = [hd for hd in loop_heads(cfg_of(h_)) if hd.kind == "test"]
+                    if len(hh_) == 1 and not heads:
+                        d, gd, heads = h_, cfg_of(h_), hh_
+    if not heads:
+        ctx.note(f"{d.qual}: no wait loop visible in discover() or a helper it awaits - when the run ends is decided by the discovery model (R9) only")
+    else:
+        ctx.ob("R4", f"{d_own.qual}::one-loop", len(heads) == 1, f"{d.qual}: expected one wait loop", d.loc)
+    if len(heads) == 1 and d is not d_own:
+        hd = heads[0]
+        body = gd.loop_body(hd)
+        avoid = [x for x in body if x.suspends]
+        ctx.ob("R4", f"{d_own.qual}::yields", hd not in gd.reach_from(hd, avoid=avoid), f"{d.qual}: an iteration without a suspension point starves the reply consumer", d.loc)
+        wait_loop_decisions(ctx, repo, d, hd)
+        d, gd = d_own, cfg_of(d_own)
+    elif len(heads) == 1:
         hd = heads[0]
         body = gd.loop_body(hd)
         avoid = [x for x in body if x.suspends]
